@@ -15,6 +15,7 @@ been received, a Predicted answer is given only for a frame that has not been re
 predictor applied to the newest received input (the default input if there is none); the stream
 only grows, so a value once received for a frame is never replaced.
 -/
+import GgrsModel.Model.Inventory
 import GgrsModel.Model.P2P
 import GgrsModel.Proofs.Monad
 import GgrsModel.Proofs.Predict
